@@ -952,6 +952,89 @@ int entry(void)
 '''
 
 
+# ================================================================ x86_64 addressing modes vs llvm-mc (validation, NOT proof)
+DISPS = [-129, -128, -127, -1, 0, 1, 126, 127, 128, 129, 255, 256, 32767, 32768, -32768, -32769,
+         (1 << 31) - 1, -(1 << 31), (1 << 31) - 2, -(1 << 31) + 1]
+X86ENC_FN = 'x86-addressing-encoding'
+
+
+def x86_addressing_stage(ctx):
+    """every memory addressing-mode constructor of ppci/arch/x86_64/instructions.py x every base register x boundary
+    displacements, inside load / store / lea / byte-load carriers: the bytes ppci encodes must be llvm-mc's bytes for the
+    intended operand, or at least disassemble (llvm-mc) to the same instruction (equivalent encodings are counted, not reported)."""
+    if not shutil.which('llvm-mc'):
+        ctx.cov['stages']['x86_addressing'] = 'skipped: llvm-mc not installed'
+        return
+    import importlib
+    C = importlib.import_module('props.c08_llvm')          # read-only use of build-C08's llvm-mc helpers
+    from ppci.arch.x86_64 import instructions as x, registers as r
+    _, args, prologue = C.TARGETS['x86_64']
+    regs = [r.rax, r.rcx, r.rdx, r.rbx, r.rsp, r.rbp, r.rsi, r.rdi, r.r8, r.r9, r.r10, r.r11, r.r12, r.r13, r.r14, r.r15]
+    B = x.bits64
+    carriers = [('load64', lambda m: B.MovRegRm(r.rcx, m), 'mov rcx, qword ptr %s'),
+                ('store64', lambda m: B.MovRmReg(m, r.r9), 'mov qword ptr %s, r9'),
+                ('lea', lambda m: x.Lea(r.rdx, m), 'lea rdx, %s'),
+                ('load8', lambda m: x.MovRegRm8(r.cl, m), 'mov cl, byte ptr %s')]
+
+    def sgn(d):
+        return ('+ %d' % d) if d >= 0 else ('- %d' % -d)
+    ops = []          # (description, constructor thunk, intel text)
+    for b in regs:
+        ops.append(('RmMem(%s)' % b.name, lambda b=b: x.RmMem(b), '[%s]' % b.name))
+        for d in DISPS:
+            ops.append(('RmMemDisp(%s, %d)' % (b.name, d), lambda b=b, d=d: x.RmMemDisp(b, d), '[%s %s]' % (b.name, sgn(d))))
+        for i in (r.rax, r.rbp, r.r9, r.r13):        # index: sib forms (rsp cannot be an index; ppci also refuses r12)
+            for d in (-129, -128, -127, -1, 0, 1, 126, 127, 128, 129):
+                ops.append(('RmMemDisp2(%s, %s, %d)' % (b.name, i.name, d), lambda b=b, i=i, d=d: x.RmMemDisp2(b, i, d),
+                            '[%s + %s %s]' % (b.name, i.name, sgn(d))))
+    for d in DISPS:
+        ops.append(('RmRip(%d)' % d, lambda d=d: x.RmRip(d), '[rip %s]' % sgn(d)))
+    for a in (0, 1, 127, 128, 255, 256, 32768, (1 << 31) - 1):
+        ops.append(('RmAbs(%d)' % a, lambda a=a: x.RmAbs(a), '[%d]' % a))
+    items = []
+    refused = 0
+    for desc, mk, text in ops:
+        for cname, build, fmt in carriers:
+            if cname == 'load8' and ('RmRip' in desc or 'RmAbs' in desc):
+                continue                    # rm8_modes has no rip / absolute forms
+            try:
+                bs = bytes(build(mk()).encode())
+            except Exception:      # noqa: BLE001   a refusal (ValueError / assert) is not a wrong encoding
+                refused += 1
+                continue
+            items.append((cname, desc, fmt % text, bs))
+    ref = C.run_llvm(args, prologue, [it[2] for it in items])
+    diff = [(it, rb) for it, rb in zip(items, ref) if rb is not None and rb != it[3]]
+    norej = sum(1 for rb in ref if rb is None)
+    dis = C.disasm_many(args, C.DISASM_ARGS.get('x86_64', []), [it[3] for it, _ in diff] + [rb for _, rb in diff]) if diff else {}
+    equiv, bad = 0, []
+    for it, rb in diff:
+        mine, theirs = dis.get(it[3]), dis.get(rb)
+        if mine is not None and mine == theirs:
+            equiv += 1
+        else:
+            bad.append((it, rb, mine, theirs))
+    ctx.cov['evaluations'] += len(items)
+    ctx.cov['stages']['x86_addressing'] = {'encodings_compared': len(items), 'identical_bytes': len(items) - len(diff) - norej,
+                                           'equivalent_encoding': equiv, 'llvm_rejected': norej, 'ppci_refused': refused,
+                                           'mismatches': len(bad), 'note': 'validation against llvm-mc, no proof'}
+    classes = {}
+    for it, rb, mine, theirs in bad:
+        cls = it[1].split('(')[0]
+        d = int(it[1].rstrip(')').split(', ')[-1]) if ',' in it[1] else 0
+        case = '%s displacement %s' % (cls, 'outside -128..127' if not -128 <= d <= 127 else 'inside -128..127')
+        classes.setdefault(case, []).append((it, rb, mine, theirs))
+    for case, lst in classes.items():
+        it, rb, mine, theirs = lst[0]
+        ctx.violation({'fn': X86ENC_FN, 'case': case, 'key': 'x86enc:' + case, 'args': [it[0], it[1]],
+                       'expected': {'operand': it[2], 'llvm_mc_bytes': rb.hex(), 'means': theirs},
+                       'actual': {'ppci_bytes': it[3].hex(), 'means': mine}, 'count': len(lst),
+                       'more': ['%s %s' % (a[0][0], a[0][1]) for a in lst[1:6]],
+                       'how_to_replay': 'from ppci.arch.x86_64 import instructions as x, registers as r; build the carrier '
+                                        '(bits64.MovRegRm / MovRmReg / Lea / MovRegRm8) with the constructor in args, .encode(); '
+                                        'compare with llvm-mc -triple=x86_64 -show-encoding on the intel-syntax operand'})
+
+
 def csys():
     """tools/gen/csysgen.py: the systematic C programs"""
     import importlib
@@ -1263,6 +1346,12 @@ def run(ctx):
             ctx.failed_stages.append(('correspondence', 'phi harness: %r' % (ex,)))
         lap('phi correspondence')
     ctx.cov['stages']['phi_registers_isolated'] = isolated
+    try:
+        x86_addressing_stage(ctx)
+    except Exception as ex:      # noqa: BLE001
+        ctx.log('x86 addressing stage crashed: %r' % (ex,))
+        ctx.failed_stages.append(('x86_addressing', repr(ex)))
+    lap('x86 addressing modes vs llvm-mc')
     if rows is not None:
         bad_rows = [r for r in rows if not (r[4] and (r[2] or r[3]))]
         for r in bad_rows[:3]:
